@@ -1,4 +1,14 @@
-From DV Require Import TreeDiff.
+From Coq Require Import ZArith List.
+From DV Require Import TreeDiff TreeBuild.
 Require Extraction.
 Require Import ExtrOcamlBasic.
-Extraction "model.ml" tree_changes tree_delta flatten look wfb st_of root merge patched.
+
+(* a stand-in for "id of a tree" that never collides: the entries, length-prefixed *)
+Definition ser_tree (t : list tent) : bytes :=
+  flat_map (fun e => Z.of_nat (length (t_name e)) :: t_name e ++ [t_mode e] ++ Z.of_nat (length (t_id e)) :: t_id e) t.
+Definition build_ser (L : listing) : bytes * list (list tent) := commit_tree ser_tree (depth L) L.
+Definition build_store (L : listing) : store := store_of ser_tree (snd (build_ser L)).
+Definition build_flat (L : listing) : list (path * leaf) :=
+  flatten (depth L) (build_store L) {| t_name := []; t_mode := 16384; t_id := fst (build_ser L) |}.
+
+Extraction "model.ml" tree_changes tree_delta flatten look wfb st_of root merge patched build_ser build_store build_flat validb is_dir.
